@@ -23,7 +23,9 @@ ALPHA = [("H2O", "O"), ("HCl", "Cl"), ("H2O", "OO"), ("water", "O"), ("bad", "XX
          # the same label for different compounds (inside one bulk add the first is accepted, the second rejected)
          ("acid", "CC(=O)O"), ("acid", "OC=O"), ("HCl", "C1"),
          # isotope-labelled hydrogens stay atoms of the graph (a hydrogen counter that also walks the neighbours counts them twice)
-         ("D2O", "[2H]O[2H]"), ("DCl", "[2H]Cl"), ("CD3OD", "[2H]OC([2H])([2H])[2H]")]
+         ("D2O", "[2H]O[2H]"), ("DCl", "[2H]Cl"), ("CD3OD", "[2H]OC([2H])([2H])[2H]"),
+         # labels / SMILES that differ from others only by surrounding white space (stored as offered, so they are different strings)
+         ("H2O ", "[OH2]"), (" Cl2", "[Cl][Cl]"), ("water3", "O ")]
 
 
 def atoms_of(s):
@@ -98,7 +100,7 @@ def run(ctx):
                  ("many", [ALPHA[0], ALPHA[4], ALPHA[5]]), ("many", [ALPHA[3], ALPHA[1]]),
                  ("add",) + ALPHA[18], ("add",) + ALPHA[19], ("many", [ALPHA[24], ALPHA[25]]), ("many", [ALPHA[1], ALPHA[26], ALPHA[20]]),
                  # removal names a FORMULA: a string that is only some entry's SMILES ("O" = water's SMILES, "OC" = methanol's) names nothing
-                 ("remove", "O"), ("remove", "OC"), ("add",) + ALPHA[27]]
+                 ("remove", "O"), ("remove", "OC"), ("add",) + ALPHA[27], ("add",) + ALPHA[30], ("many", [ALPHA[0], ALPHA[30], ALPHA[32]])]
     L = 3 if ctx.quick() else 4
     hist = []
     for n in range(1, L + 1):
@@ -190,6 +192,16 @@ Definition hck (n : nat) (ops : list op) (e : list (string * string * dict)) (re
                         crashed = True
                         continue
                     rejs.append([(e["formula"], e["smiles"]) for e in r])
+                    # property: exactly the entries that cannot be added are reported (independent rule: duplicate formula or SMILES
+                    # among what the database holds at that moment, or an invalid SMILES)
+                    cur, exp_rej = [(d["formula"], d["smiles"]) for d in before], []
+                    for f_, s_ in o[1]:
+                        if any(f_ == a for a, _ in cur) or any(s_ == b for _, b in cur) or true_comp(s_) is None:
+                            exp_rej.append((f_, s_))
+                        else:
+                            cur.append((f_, s_))
+                    if [(e["formula"], e["smiles"]) for e in r] != exp_rej:
+                        ctx.fail("bulk-add-misreports-rejections", {"start": start, "ops": seq}, {"op": o, "reported": [(e["formula"], e["smiles"]) for e in r], "expected": exp_rej})
                     acc += len(o[1]) - len(r); rej += len(r)
                 else:
                     try:
